@@ -21,9 +21,9 @@ import (
 
 type svcSource struct{ answers []byte }
 
-func (s *svcSource) Protocol() endpoint.Protocol      { return endpoint.ProtocolDOH }
-func (s *svcSource) Equal(e endpoint.Endpoint) bool   { return e == endpoint.Endpoint(s) }
-func (s *svcSource) String() string                   { return "svcSource" }
+func (s *svcSource) Protocol() endpoint.Protocol    { return endpoint.ProtocolDOH }
+func (s *svcSource) Equal(e endpoint.Endpoint) bool { return e == endpoint.Endpoint(s) }
+func (s *svcSource) String() string                 { return "svcSource" }
 func (s *svcSource) Exchange(ctx context.Context, payload, buf []byte) (int, error) {
 	if len(payload) < 12 {
 		return 0, fmt.Errorf("short query")
@@ -151,6 +151,7 @@ func runSvcProv(spec string) string {
 func init() {
 	areas["svcprov"] = func(c *Ctx) error {
 		run := func(l string) {
+			c.Note(l)
 			f := strings.Fields(l)
 			if len(f) != 2 || f[0] != "svcprov" {
 				c.Emit(l, "bad-op")
